@@ -518,7 +518,9 @@ func famEval() {
 				{Mask: r.Intn(16), Events: []string{"report", "debug"}[r.Intn(2)]}}
 		case "C10":
 			vs = []ConfOpts{{Mask: 15}, {Mask: 1}, {Mask: r.Intn(16) | 1}, {Mask: r.Intn(16)}, {Mask: 1, How: "dir"},
-				{Mask: 1 | r.Intn(16), NoStateless: true}} // p registered but NOT declared stateless, after configs that declare it
+				{Mask: 1 | r.Intn(16), NoStateless: true}, // p registered but NOT declared stateless, after configs that declare it
+				{Mask: 1 | r.Intn(16), ManyStateless: []int{15, 16, 17, 20, 40}[r.Intn(5)]},
+				{Mask: 1 | r.Intn(16), ManyStateless: 24, NoStateless: r.Intn(2) == 0}}
 		default:
 			vs = []ConfOpts{{Mask: 0}, {Mask: 15}}
 		}
